@@ -66,11 +66,11 @@ async fn wait_indexes(dir: &Path, ids: &[usize]) {
 
 macro_rules! with_storage {
     ($keylen:expr, $body:ident, $($arg:expr),*) => {
-        match $keylen { 4 => $body::<4>($($arg),*).await, 8 => $body::<8>($($arg),*).await, 33 => $body::<33>($($arg),*).await, 400 => $body::<400>($($arg),*).await, _ => panic!("keylen") }
+        match $keylen { 4 => $body::<4>($($arg),*).await, 8 => $body::<8>($($arg),*).await, 33 => $body::<33>($($arg),*).await, 400 => $body::<400>($($arg),*).await, 32 => $body::<32>($($arg),*).await, 128 => $body::<128>($($arg),*).await, _ => panic!("keylen") }
     };
 }
 
-async fn generate<const N: usize>(dir: &Path, bloom_name: &str, group: usize, seed: u64, nblobs: usize, big: bool) -> anyhow::Result<()> {
+async fn generate<const N: usize>(dir: &Path, bloom_name: &str, group: usize, seed: u64, nblobs: usize, big: bool, wide_ts: bool) -> anyhow::Result<()> {
     let _ = std::fs::remove_dir_all(dir);
     let mut s: Storage<ArrayKey<N>> = builder(dir, bloom_name, group).build()?;
     s.init().await?;
@@ -81,7 +81,7 @@ async fn generate<const N: usize>(dir: &Path, bloom_name: &str, group: usize, se
         for _ in 0..nops {
             opno += 1;
             let key = ArrayKey::<N>::from(key_bytes(N, r.below(6) as u8).as_slice());
-            let ts = r.below(5);
+            let ts = if wide_ts { [0u64, 1, 3, (1 << 33) + 5, (1 << 33) + 6, u64::MAX - 1, u64::MAX][r.below(7) as usize] } else { r.below(5) };
             let mi = r.below(4);
             if r.below(10) < 8 {
                 let len = match r.below(12) { 0 => 0, 1 => 1, 2 if big => 4096 - 57 - N - 8, 3 if big => 4097, 4 if big => 81_920 - 57 - N - 8 + 1, 5 if big => 90_000, _ => 3 + r.below(200) as usize };
@@ -184,6 +184,21 @@ async fn record<const N: usize>(dir: &Path, bloom_name: &str, group: usize, wide
 #[tokio::main(flavor = "multi_thread", worker_threads = 2)]
 async fn main() -> anyhow::Result<()> {
     let out = PathBuf::from(std::env::args().nth(1).expect("output dir"));
+    if std::env::args().nth(2).as_deref() == Some("batch3") {
+        // third batch (same pinned tree): key sizes that are multiples of the hash function's block sizes (32, 128),
+        // timestamps above 2^32 and at u64::MAX
+        let specs: Vec<(usize, &str, usize, u64, usize)> = vec![(32, "odd", 3, 51, 3), (128, "default80k", 2, 52, 3), (8, "tiny", 4, 53, 3)];
+        for (keylen, bloom_name, group, seed, nblobs) in specs {
+            let name = format!("k{}-{}-g{}-b{}-widets", keylen, bloom_name, group, nblobs);
+            let dir = out.join(&name);
+            with_storage!(keylen, generate, &dir, bloom_name, group, seed, nblobs, false, true)?;
+            let exp = with_storage!(keylen, record, &dir, bloom_name, group, 0)?;
+            std::fs::write(dir.join("expected.json"), serde_json::to_vec_pretty(&exp)?)?;
+            let _ = std::fs::remove_file(dir.join("pearl.lock"));
+            println!("{}: {} files", name, std::fs::read_dir(&dir)?.count());
+        }
+        return Ok(());
+    }
     if std::env::args().nth(2).as_deref() == Some("tree") {
         // second batch (added later, same pinned tree): index files with inner nodes
         let specs: Vec<(usize, &str, usize, u64, Vec<usize>)> = vec![
@@ -211,7 +226,7 @@ async fn main() -> anyhow::Result<()> {
     for (keylen, bloom_name, group, seed, nblobs, big) in specs {
         let name = format!("k{}-{}-g{}-b{}", keylen, bloom_name, group, nblobs);
         let dir = out.join(&name);
-        with_storage!(keylen, generate, &dir, bloom_name, group, seed, nblobs, big)?;
+        with_storage!(keylen, generate, &dir, bloom_name, group, seed, nblobs, big, false)?;
         let exp = with_storage!(keylen, record, &dir, bloom_name, group, 0)?;
         // the recording session rewrote nothing but may have re-dumped indexes: fine, they are part of the corpus
         std::fs::write(dir.join("expected.json"), serde_json::to_vec_pretty(&exp)?)?;
